@@ -17,12 +17,14 @@ from . import pycodec
 BATCH = 32
 
 
-def variants(tier):
+def variants(tier, batch_no=0):
     if tier == "c14:quick":
         return ["std-O0", "std-O2"]
     if tier == "quick":
         return ["std-O0", "std-O2", "unity-O3"]
-    return ["std-O0", "std-O1", "std-O2", "std-O3", "unity-O2", "unity-O3"]
+    if batch_no % 3:
+        return ["std-O0", "std-O2", "unity-O3"]
+    return ["std-O0", "std-O1", "std-O2", "std-O3", "unity-O2", "unity-O3"]  # thorough: all six builds on every third batch
 
 
 def c_classes(c: scope.Case, lay) -> List[str]:
@@ -76,7 +78,7 @@ def run_unit(unit):
     cases = [sp[i] for i in idxs]
     out = UnitOut()
     with Scratch() as sc:
-        run_batch(pid, tier, cases, sc, out, variants(tier))
+        run_batch(pid, tier, cases, sc, out, variants(tier, idxs[0] // BATCH))
     return out.result()
 
 
@@ -241,7 +243,7 @@ def main(pid, tier):
              "every (state, value) is encoded and decoded under every build configuration inside guard pages; "
              "non-trivial = some value bit set and more than one leaf; counted per (state, value, configuration)",
         exhaustive=True,
-        bound="SING(%s) u COMB(2) u TREE(%d) u HOMONYMS, Vmax=%d, builds=%s" % (tier, 4 if tier == "quick" else 5, pycodec.vmax(tier), variants(tier)),
+        bound="SING(%s) u COMB(2) u TREE(%d) u HOMONYMS, Vmax=%d, builds=%s%s" % (tier, 4 if tier == "quick" else 5, pycodec.vmax(tier), variants(tier), "" if tier == "quick" else " (all six on every third batch, the first three on the others)"),
     )
     return finish(pid, tier, acc, cov, t0,
                   assumptions=["reference model bpmc/ref.py", "gcc 12 code generation for x86-64 (little-endian host)",
